@@ -55,6 +55,8 @@ def check_program(prog, cap):
     unused = {(l, c): code for code in ('W01', 'W02') for (l, c, n) in lv[code]}
     structured = any(f in prog.get('features', ()) for f in ('for', 'while', 'try'))
     cond_walrus = dyn_common.conditional_walrus_sites(d.tree)
+    star_kw = dyn_common.star_before_keyword_walrus(d.tree)
+    own_iter = dyn_common.own_iterable_reads(d.tree)
     split_reads = dyn_common.split_statement_reads(d.tree)
     for rid, pos, name, outcomes in d.reads():
         rscope = d.ins.read_scope[rid]
@@ -87,6 +89,13 @@ def check_program(prog, cap):
                 problems.append(('statement-split-by-comprehension',
                                  'read %s at %s follows a comprehension inside a statement that rebinds it; supp lists %s, run time %s' % (name, pos, sorted(alts), s)))
                 continue
+            if s not in alts and pos in star_kw:
+                problems.append(('star-argument-evaluated-before-keyword-walrus',
+                                 '*%s at %s is evaluated before the keyword argument that rebinds it: run time %s, supp %s' % (name, pos, s, sorted(alts))))
+                continue
+            if s not in alts and pos in own_iter and kind == 'comp':
+                problems.append(('comprehension-variable-read-in-its-own-iterable', 'read %s at %s obtains the previous trip\'s %s' % (name, pos, s)))
+                continue
             if s not in alts and dyn_common.in_finally_reached_by_return(d.tree, pos):
                 problems.append(('finally-reached-through-return',
                                  'read %s at %s sits in a finally block that a return statement of the try statement jumps to; run time %s, supp %s' % (name, pos, s, sorted(alts))))
@@ -110,7 +119,9 @@ def check_program(prog, cap):
 KNOWN_SIGS = {'C02-annotation-after-binding': lambda sig: sig == 'annotation-evaluated-after-binding',
               'C02-conditional-walrus': lambda sig: sig == 'conditional-walrus-shadows-definition',
               'C02-statement-split-by-comprehension': lambda sig: sig == 'statement-split-by-comprehension',
-              'C02-finally-after-return': lambda sig: sig == 'finally-reached-through-return'}
+              'C02-finally-after-return': lambda sig: sig == 'finally-reached-through-return',
+              'C02-star-before-keyword-walrus': lambda sig: sig == 'star-argument-evaluated-before-keyword-walrus',
+              'C02-comprehension-own-iterable': lambda sig: sig == 'comprehension-variable-read-in-its-own-iterable'}
 _listed = {e['id'] for e in core.load_known(PROPERTY) if e.get('status') == 'finding'}
 KNOWN_SIGS = {k: v for k, v in KNOWN_SIGS.items() if k in _listed}
 KNOWN = {fid: (lambda v, p=pred: p(v['signature'])) for fid, pred in KNOWN_SIGS.items()}
